@@ -58,11 +58,21 @@ def valid_ip(s):
     return True
 
 
+def _structural_copy(v):
+    """fresh containers, shared (immutable) leaves: what the library does to the caller's lists/dicts in place must not also
+    change the expectation it is compared with"""
+    if isinstance(v, list):
+        return [_structural_copy(x) for x in v]
+    if isinstance(v, dict):
+        return {k: _structural_copy(x) for k, x in v.items()}
+    return v
+
+
 def _check(cfg_values, expect_valid):
     """build the dict in the grid's key order, run the converter, compare with the expectation"""
     cfg = {}
     for k in _order():
-        cfg[k] = cfg_values[k]
+        cfg[k] = _structural_copy(cfg_values[k])
     extra = P.get("extra_key")
     if extra:
         cfg[extra] = 1
@@ -318,6 +328,10 @@ def queries(tier, seed):
         qs.append(Q(f"verbatim/{oname}", "verbatim", {"order": orders[oname]}, cto=t, pto=t, what=f"host names, realm, ports reflected verbatim, key order {oname}"))
         if oname == "identity":
             qs.append(Q("verbatim/diameter", "verbatim", {"order": orders[oname], "via": "diameter"}, cto=t, pto=t, what="the same through Diameter(config=...)"))
+        if oname == "identity":
+            for n_ in (1, 2):
+                qs.append(Q(f"applications/diameter/n{n_}", "applications", {"order": orders[oname], "n": n_, "bad": 0, "via": "diameter"}, cto=t, pto=t,
+                            what=f"{n_} application(s) with symbolic vendor/app ids through Diameter(config=...): reflected in the configured order"))
         for n_, bad_ in ((0, 0), (1, 0), (2, 0), (2, 1), (1, 2)):
             qs.append(Q(f"applications/{oname}/n{n_}bad{bad_}", "applications", {"order": orders[oname], "n": n_, "bad": bad_}, cto=t, pto=t,
                         what=f"{n_} application dicts with symbolic byte values{', one non-bytes value' if bad_ else ''}, key order {oname}"))
